@@ -367,7 +367,8 @@ def r07_2(ctx, g):
                 raise AnalysisError("R07.2", run.where(derived[0]), f"the list `{fl}` the complete file is put together from is derived (`{norm(derived[0].value)[:60]}`), not filled in the chromosome loop: its contents are not traced")
             ctx.violated("R07.2", run.where(cl), f"the per-chromosome files are written but never added to `{fl}`, the list the complete file is put together from: the complete file lacks the chromosomes", key_of(run, f"concat-list-not-filled:{fl}"))
         else:
-            ok_app = all(norm(a.args[0]) == norm(out_arg) for a in apps) and len(apps) == 1
+            # a registry of (gfa, csv) pairs: the path is the first element of the appended tuple
+            ok_app = all(norm(a.args[0]) == norm(out_arg) or (isinstance(a.args[0], ast.Tuple) and a.args[0].elts and norm(a.args[0].elts[0]) == norm(out_arg)) for a in apps) and len(apps) == 1
             ctx.check(ok_app, "R07.2", run.where(apps[0]), f"the path written by write_gfa (`{norm(out_arg)}`) is the one registered in `{fl}` for the concatenation, once per chromosome", key_of(run, f"concat-list-path:{[norm(a.args[0]) for a in apps]}"))
     # the files are concatenated in the order in which the chromosomes were written (= BO order): the list of files is
     # not re-ordered or de-duplicated through a set between the chromosome loop and the concatenation
@@ -469,7 +470,7 @@ def r07_5(ctx):
     nl = node_loops[0]
     paths = enum_paths(nl.body, rule="R07.5", where=run.where(nl))
     bad = None
-    loop_locals = {st.targets[0].id for st in walk_stmts(nl.body) if isinstance(st, ast.Assign) and len(st.targets) == 1 and isinstance(st.targets[0], ast.Name) and isinstance(st.value, (ast.List, ast.BinOp, ast.JoinedStr, ast.Call))}
+    loop_locals = {st.targets[0].id for st in walk_stmts(nl.body) if isinstance(st, ast.Assign) and len(st.targets) == 1 and isinstance(st.targets[0], ast.Name) and isinstance(st.value, (ast.List, ast.Tuple, ast.BinOp, ast.JoinedStr, ast.Call))}
     color_holes = []
     for p in paths:
         rows = [e.node.value for e in p.events if e.kind == "stmt" and isinstance(e.node, ast.Expr) and isinstance(e.node.value, ast.Call) and isinstance(e.node.value.func, ast.Attribute) and e.node.value.func.attr == "write"]
@@ -485,6 +486,8 @@ def r07_5(ctx):
         holes = [norm(h[1]) for h in tmpl.holes(parts)]
         color_holes.append([h[1] for h in tmpl.holes(parts)][1] if len(holes) == 6 else None)
         stores = {const_value(e.node.targets[0].slice): norm(e.node.value.elts[1]) for e in p.events if e.kind == "stmt" and isinstance(e.node, ast.Assign) and isinstance(e.node.targets[0], ast.Subscript) and ".tags" in norm(e.node.targets[0].value) and isinstance(e.node.value, ast.Tuple)}
+        if len(holes) != 6 and any("join(" in h_ for h_ in holes):
+            raise AnalysisError("R07.5", run.where(nl), f"the CSV row is joined from a collection this rule does not read element by element (`{holes[0][:60]}`)")
         if len(holes) != 6 or holes[0] != norm(nl.target) or holes[4] != stores.get("BO") or holes[5] != stores.get("NO"):
             bad = (p, f"CSV row {holes} does not carry the node id and the BO/NO values stored on the node ({stores})")
             break
